@@ -5,11 +5,14 @@ import tempfile
 from harness import common as C
 
 
-def run_service_check(pid, tier, seed, *, rule, trusted_extra=(), extra=None, **kw):
+def run_service_check(pid, tier, seed, *, rule, trusted_extra=(), extra=None, pre=None, **kw):
   rep = C.Report(pid, tier, seed)
   rep.rule = rule
   rep.trusted = SVC_TRUSTED + list(trusted_extra)
+  pre_broke = pre() if pre else None      # translators that regenerate coq/Gen files this property's theorems depend on
   C.standard_proof_step(rep, pid)
+  if pre_broke:
+    rep.proof_broken = ((rep.proof_broken or '') + ' ' + pre_broke).strip()
   known = {f['id']: f for f in C.load_known() if f['property'] == pid}
   r = C.rng(seed, pid.lower())
   broke, concrete = service_part(rep, pid, r, tier, known, **kw)
@@ -20,6 +23,19 @@ def run_service_check(pid, tier, seed, *, rule, trusted_extra=(), extra=None, **
     concrete = concrete or c2
   C.settle_broken(rep, broke, concrete)
   return rep.finish()
+
+
+def regenerate_handler_sources():
+  """coq/Gen/Handlers.v, SuggestSrc.v, EarlyStopSrc.v, OptimalSrc.v from vizier_service.py (all 17 RPC handlers); the proofs under
+  coq/Proofs/*IRP.v show that the regenerated programs are the model's.  Returns a message if a translator refused the source."""
+  msgs = []
+  from harness.translate import svchandlers, svcsuggest, svcearlystop, svcoptimal
+  for rel, mod in (('Gen/Handlers.v', svchandlers), ('Gen/SuggestSrc.v', svcsuggest), ('Gen/EarlyStopSrc.v', svcearlystop), ('Gen/OptimalSrc.v', svcoptimal)):
+    try:
+      C.write_gen(rel, mod.translate(C.REPO))
+    except Exception as e:  # pylint: disable=broad-except
+      msgs.append('translator harness/translate/%s.py refused vizier_service.py: %r' % (mod.__name__.split('.')[-1], e))
+  return ' '.join(msgs) or None
 
 
 SVC_TRUSTED = ['Coq 8.16.1 kernel + vm_compute', 'coq/Model/Service.v is a hand transcription of vizier_service.py and the '
